@@ -1,4 +1,4 @@
-\* the pinned tree's DOTTEDSTRUCTS flag survives AssembleFile_InitPass: EXPECTED to violate FreshStart / Independent
+\* DOTTEDSTRUCTS surviving AssembleFile_InitPass (the tree as originally pinned): EXPECTED to violate Independent
 CONSTANTS MaxLines = 2 MaxFiles = 2 Wrap = 0 Leaky = {"dotted"}
 CONSTANTS Kinds <- KindsHist OptSpace <- OptsTwo
 SPECIFICATION Spec
